@@ -1334,6 +1334,8 @@ static void builder_cmds(Toks& tk, ArrayBuilder& b, std::ostringstream& out) {
     else if (c == "field") b.field_check(tk.next());
     else if (c == "endrecord") b.endrecord();
     else if (c == "clear") b.clear();
+    else if (c == "append") { int64_t at = tk.i64(); ContentPtr a = parse_layout(tk); b.append(a, at); }
+    else if (c == "extend") { ContentPtr a = parse_layout(tk); b.extend(a); }
     else if (c == "snap") {
       ContentPtr s = b.snapshot();
       std::ostringstream o; tostr(s, o);
